@@ -32,13 +32,16 @@ type Capture struct {
 	// OnEnabled, when set, is called from Enabled: slog asks the handler before it copies the attributes into the record,
 	// so a simulator yield here lets other requests run in between.
 	OnEnabled func()
+	// MinLevel is the handler's minimum level (slog drops records below it before they are built). Zero value: INFO;
+	// use slog.LevelDebug to keep everything.
+	MinLevel slog.Level
 }
 
-func (c *Capture) Enabled(context.Context, slog.Level) bool {
+func (c *Capture) Enabled(_ context.Context, l slog.Level) bool {
 	if c.OnEnabled != nil {
 		c.OnEnabled()
 	}
-	return true
+	return l >= c.MinLevel
 }
 
 func (c *Capture) Handle(_ context.Context, r slog.Record) error {
